@@ -201,6 +201,15 @@ func genBatch(c *Cer, round string, proposer int, bno int, prev [][]byte, maxBak
 	}
 }
 
+func indexOf(a []int, v int) int {
+	for i, x := range a {
+		if x == v {
+			return i
+		}
+	}
+	return 0
+}
+
 func bakedStart(w *World) int {
 	switch w.Tape.Choose(4, "bakedStartClass") {
 	case 0:
@@ -312,14 +321,35 @@ func runSignScenario(w *World, tier string, prop string) (bool, interface{}) {
 			}
 		}
 		before := len(c.Tr.Order)
-		d := genBatch(c, round, perm[w.Tape.Choose(n, "proposer")], b, prev, maxBaked)
+		proposer := perm[w.Tape.Choose(n, "proposer")]
+		// C07: a second participant, whose node has not yet read the first
+		// proposal, proposes a batch of its own right behind it. Every node
+		// refuses the latecomer (a batch is running); the running batch must
+		// still be reconstructed everywhere.
+		racer := -1
+		if prop == "C07" && w.Tape.Bool(1, 4, "racingProposal") {
+			racer = perm[(indexOf(perm, proposer)+1+w.Tape.Choose(n-1, "racer"))%n]
+			c.L.PausedPoll[racer] = true
+		}
+		d := genBatch(c, round, proposer, b, prev, maxBaked)
 		// the proposal must reach the board before we can name the batch
 		c.L.RunUntil(func() bool { return len(c.Tr.Order) > before }, 20*n)
 		if len(c.Tr.Order) <= before {
+			delete(c.L.PausedPoll, racer)
 			descs = append(descs, d+" (not accepted)")
 			continue
 		}
 		bi := c.Tr.LastBatch()
+		if racer >= 0 {
+			if w.Nodes[racer].RoundState(round) == StIdle {
+				rp := c.ProposeFiles(racer, round, map[string][]byte{fmt.Sprintf("racing proposal %d", b): genPayload(w, "racePl")})
+				if rp.OK() {
+					w.Stats.Fault("racing-proposal")
+					d += "+racing-proposal"
+				}
+			}
+			delete(c.L.PausedPoll, racer)
+		}
 		slow := map[int]bool{}
 		for i := 0; i < n; i++ {
 			if !fast[i] {
@@ -353,6 +383,22 @@ func runSignScenario(w *World, tier string, prop string) (bool, interface{}) {
 				prev = append(prev, em.Payload)
 			}
 		}
+		// C03: the finished batch is proposed once more under the same batch and
+		// message identifiers with corrected (different) payloads; what is signed,
+		// stored and exported afterwards has to be the payload of this proposal
+		if prop == "C03" && ok && faulty < 0 && !w.Failed() && w.Tape.Bool(1, 4, "reproposeSameIds") {
+			// first every willing signer's answer to the original proposal has to be
+			// on the board: with the identifiers re-used, a late answer to the old
+			// proposal could not be told from an answer to the new one
+			c.L.RunUntil(func() bool { return len(bi.Answered) >= k }, 40*n)
+			rec0 := c.Tr.Recon
+			if len(bi.Answered) >= k && c.ReproposeChanged(perm[w.Tape.Choose(n, "reproposer")], bi.Offset) {
+				w.Stats.Fault("batch-reproposed-under-same-identifiers")
+				done := c.L.RunUntil(func() bool { return c.Tr.Recon > rec0 && c.AllInState(round, StIdle, members) }, stepCap)
+				c.L.Quiesce(10)
+				descs = append(descs, fmt.Sprintf("re-proposed under the same ids (done=%v)", done))
+			}
+		}
 		if !ok && prop == "C07" && faulty < 0 && !w.Failed() {
 			// the random schedule ran into its step cap: judge only after a
 			// fault-free round-robin phase (bounded liveness, not luck)
@@ -379,11 +425,51 @@ func runSignScenario(w *World, tier string, prop string) (bool, interface{}) {
 		}
 		c.L.RunUntil(func() bool { return false }, 3*n)
 	}
+	// C01 "under that round's group key": a second key generation among a
+	// different participant set on the same node processes, then the same
+	// payloads (a document and a baked range) signed in both rounds
+	round2 := ""
+	var members2 []int
+	if prop == "C01" && n >= 3 && !w.Failed() && c.AllInState(round, StIdle, members) && w.Tape.Bool(1, 3, "secondRound") {
+		drop := w.Tape.Choose(n, "dropMember")
+		for _, i := range members {
+			if i != drop {
+				members2 = append(members2, i)
+			}
+		}
+		t2 := 2 + w.Tape.Choose(len(members2)-1, "t2")
+		w.Advance(2 * time.Second)
+		r2, rep2 := c.StartDKG(members2[w.Tape.Choose(len(members2), "proposer2")], t2, members2)
+		if rep2.OK() && r2 != round && c.RunDKG(r2, members2, 400*n) {
+			round2 = r2
+			w.Stats.Fault("multi-round")
+			doc := genPayload(w, "sharedDoc")
+			bs := bakedStart(w)
+			if bs > 18630 {
+				bs = 18630
+			}
+			tasks := []TaskSpec{{File: "shared document", Payload: doc}, {Baked: true, Start: bs, End: bs + 2}}
+			for _, rr := range []struct {
+				r string
+				m []int
+			}{{round, members}, {round2, members2}} {
+				before := len(c.Tr.Order)
+				c.ProposeRaw(rr.m[w.Tape.Choose(len(rr.m), "proposerShared")], rr.r, tasks)
+				c.L.RunUntil(func() bool {
+					return len(c.Tr.Order) > before && c.Tr.AllHaveBatch(c.Tr.LastBatch(), rr.m) && c.AllInState(rr.r, StIdle, rr.m)
+				}, 300*n)
+			}
+			descs = append(descs, fmt.Sprintf("second round n=%d t=%d, shared payloads signed in both", len(members2), t2))
+		}
+	}
 	for _, op := range c.Ops {
 		op.Filter = func(o *types.Operation) bool { return !never[BatchOfOp(o)][op.Idx] }
 	}
 	c.L.Quiesce(12)
 	so.checkStores(round, members)
+	if round2 != "" && !w.Failed() {
+		so.checkStores(round2, members2)
+	}
 	if prop == "C07" && !w.Failed() {
 		// bounded liveness: every batch answered by >= t participants is stored
 		// (valid, judged by checkStores) on every node, and the round is idle
